@@ -300,8 +300,16 @@ class Replayer:
         self.log = log
         self.bins = {}
         self.err = None
+        import threading
+        self.finished = threading.Event()      # set when every requested profile is built (or the build failed)
 
     def build(self, profiles=("dev", "release")):
+        try:
+            return self._build(profiles)
+        finally:
+            self.finished.set()
+
+    def _build(self, profiles):
         crate, target = core.crate_dirs("engines/mirreplay")
         lock_src = os.path.join(core.REPO, "Cargo.lock")
         for prof in profiles:
